@@ -192,7 +192,7 @@ def run(ck):
         ck.mc("MC_Xproto", "MC_Xproto_101.cfg", note="sessions to 4 steps on the order-88 curve (l' = 11)", workers=8, timeout=3000)
         ck.mc("MC_Xproto", "MC_Xproto_109.cfg", note="sessions to 4 steps on the order-104 curve (l' = 13)", workers=8, timeout=3000)
     ops = gen(ck.rng, quick)
-    for sc in x_histories(ck, 60 if quick else 600):
+    for sc in x_histories(ck, 60):      # per round (the thorough tier repeats the round with fresh draws on every build)
         ops += sc
     sp = os.path.join(ck.workdir, "script.ndjson")
     spz = os.path.join(ck.workdir, "script.nz.ndjson")
